@@ -81,6 +81,7 @@ pub struct Shared {
     pub read_pos_at_write: Vec<(usize, usize, usize)>,
     obs_hashed: usize,
     obs_running: u64,
+    pub greeting_len: usize,
 }
 
 impl Shared {
@@ -105,7 +106,12 @@ impl AsyncRead for MockIo {
             s.log.push(Obs::ReadErr);
             return Poll::Ready(Err(io::Error::new(io::ErrorKind::ConnectionReset, "injected read error")));
         }
-        let avail = s.delivered.min(s.visible_len()).saturating_sub(s.read_pos);
+        let mut avail = s.delivered.min(s.visible_len()).saturating_sub(s.read_pos);
+        // the greeting never shares a read with what follows it: a conforming server speaks only
+        // when asked, so nothing can be in flight behind the greeting (DESIGN.md section 9)
+        if s.read_pos < s.greeting_len {
+            avail = avail.min(s.greeting_len - s.read_pos);
+        }
         if avail > 0 {
             let n = avail.min(buf.remaining());
             if n == 0 {
@@ -1104,6 +1110,7 @@ async fn run_async(scn: &Scenario, chooser: &mut dyn Chooser) -> Result<Trace, S
         read_pos_at_write: Vec::new(),
         obs_hashed: 0,
         obs_running: 0,
+        greeting_len: scn.greeting.len(),
     }));
 
     let io = MockIo(shared.clone());
